@@ -14,7 +14,7 @@ use std::collections::HashSet;
 use std::fmt::Debug;
 use std::io::{Error, ErrorKind};
 use std::mem::MaybeUninit;
-use std::sync::Arc;
+use std::sync::{Arc, Mutex, PoisonError};
 use std::thread::JoinHandle;
 use std::time::Duration;
 
@@ -48,7 +48,8 @@ impl_display_by_debug!(MonitorState);
 #[repr(C)]
 #[derive(Debug)]
 pub(crate) struct Monitor {
-    notify_queue: UnsafeCell<HashSet<NotifyNode>>,
+    // scheduling threads insert and remove their nodes while the monitor thread scans
+    notify_queue: Mutex<HashSet<NotifyNode>>,
     state: Cell<MonitorState>,
     thread: UnsafeCell<MaybeUninit<JoinHandle<()>>>,
     blocker: Arc<CondvarBlocker>,
@@ -57,7 +58,7 @@ pub(crate) struct Monitor {
 impl Default for Monitor {
     fn default() -> Self {
         Monitor {
-            notify_queue: UnsafeCell::default(),
+            notify_queue: Mutex::default(),
             state: Cell::new(MonitorState::Created),
             thread: UnsafeCell::new(MaybeUninit::uninit()),
             blocker: Arc::default(),
@@ -65,14 +66,33 @@ impl Default for Monitor {
     }
 }
 
+thread_local! {
+    // set while this thread holds the notify queue lock: the preemption signal must not park
+    // a coroutine that holds it (the monitor simply tries again a millisecond later)
+    static IN_NOTIFY_QUEUE: Cell<bool> = const { Cell::new(false) };
+}
+
 impl Monitor {
     fn get_instance<'m>() -> &'m Self {
         BeanFactory::get_or_default(MONITOR_BEAN)
     }
 
+    fn with_notify_queue<R>(&self, f: impl FnOnce(&mut HashSet<NotifyNode>) -> R) -> R {
+        IN_NOTIFY_QUEUE.with(|flag| flag.set(true));
+        let r = f(&mut self
+            .notify_queue
+            .lock()
+            .unwrap_or_else(PoisonError::into_inner));
+        IN_NOTIFY_QUEUE.with(|flag| flag.set(false));
+        r
+    }
+
     fn start(&self) -> std::io::Result<()> {
         #[cfg(unix)]
         extern "C" fn sigurg_handler(_: libc::c_int) {
+            if IN_NOTIFY_QUEUE.with(Cell::get) {
+                return;
+            }
             if let Ok(mut set) = SigSet::thread_get_mask() {
                 //只抢占处于Running状态的协程。
                 //MonitorListener的设计理念是不对Syscall状态的协程发送信号。
@@ -176,10 +196,14 @@ impl Monitor {
     fn monitor_thread_main() {
         let monitor = Self::get_instance();
         Self::init_current(monitor);
-        let notify_queue = unsafe { &*monitor.notify_queue.get() };
-        while MonitorState::Running == monitor.state.get() || !notify_queue.is_empty() {
+        loop {
             //只遍历，不删除，如果抢占调度失败，会在1ms后不断重试，相当于主动检测
-            for node in notify_queue {
+            let nodes: Vec<NotifyNode> =
+                monitor.with_notify_queue(|queue| queue.iter().copied().collect());
+            if MonitorState::Running != monitor.state.get() && nodes.is_empty() {
+                break;
+            }
+            for node in &nodes {
                 if now() < node.timestamp {
                     continue;
                 }
@@ -329,7 +353,6 @@ impl Monitor {
     fn submit(timestamp: u64) -> std::io::Result<NotifyNode> {
         let instance = Self::get_instance();
         instance.start()?;
-        let queue = unsafe { &mut *instance.notify_queue.get() };
         cfg_if::cfg_if! {
             if #[cfg(unix)] {
                 let node = NotifyNode {
@@ -345,15 +368,13 @@ impl Monitor {
                 };
             }
         }
-        _ = queue.insert(node);
+        _ = instance.with_notify_queue(|queue| queue.insert(node));
         instance.blocker.notify();
         Ok(node)
     }
 
     fn remove(node: &NotifyNode) -> bool {
-        let instance = Self::get_instance();
-        let queue = unsafe { &mut *instance.notify_queue.get() };
-        queue.remove(node)
+        Self::get_instance().with_notify_queue(|queue| queue.remove(node))
     }
 }
 
